@@ -5,7 +5,9 @@ import (
 	"strings"
 )
 
-// Relevance slicing of an obligation script (an optimisation of the solving layer, always sound: hypotheses are only
+// STRICT relevance slicing of an obligation script, in addition to the transitive slicing of solve.go (sliceScript): for
+// functions with a large quantified representation invariant the transitive closure keeps almost everything.
+// (An optimisation of the solving layer, always sound: hypotheses are only
 // DROPPED, so an `unsat` of the sliced script is an `unsat` of the full one; any other answer of a sliced script is
 // ignored). Scripts of functions with large quantified invariants carry hundreds of quantified hypotheses (typing
 // closures, one append / copy axiom per struct leaf, every conjunct of the invariant); most of them are about heap
@@ -100,9 +102,9 @@ func sexpArgs(inner string) []string {
 	return out
 }
 
-// sliceScript returns the sliced script and true when slicing applies (enough quantified hypotheses, a non-empty
+// sliceScriptStrict returns the strictly sliced script and true when slicing applies (enough quantified hypotheses, a non-empty
 // discriminating symbol set, and at least one hypothesis dropped).
-func sliceScript(script string) (string, bool) {
+func sliceScriptStrict(script string) (string, bool) {
 	lines := strings.Split(script, "\n")
 	marker := -1
 	for i, l := range lines {
